@@ -196,6 +196,30 @@ def run(ctx):
         lay = rng.choice(LAYOUTS)
         eol = rng.choice((b"\n", b"\r\n"))
         cases.append(("rand", (dialect, lay, eol == b"\r\n"), layout(T, D, dialect, lay, eol), (T, dedup(D))))
+    # long names that differ only near their end (sibling files of one directory): told apart wherever names are compared
+    for _ in range(300 if ctx.tier == "quick" else 5000):
+        stem = bytes(rng.choice(b"abcdefgh/_.") for _ in range(rng.randint(12, 40)))
+        stem = stem.replace(b"//", b"/_").strip(b"/") or b"dir/file_name"
+        k = rng.randint(2, 5)
+        tails = set()
+        while len(tails) < k:
+            tails.add(bytes(rng.choice(b"abcxyz0123._") for _ in range(rng.randint(1, 4))))
+        names = [stem + t_ for t_ in sorted(tails)]
+        names = [n_ for n_ in names if not n_.endswith(b".") and b"/." not in n_ and not n_.startswith(b".")] or [stem + b"a", stem + b"b"]
+        dialect = rng.choice(list(DIALECTS))
+        lay = rng.choice(LAYOUTS)
+        T, D = [b"out/target_object.o"], list(names)
+        if rng.random() < 0.5:
+            D.append(rng.choice(names))            # one of them twice: must come back once
+        cases.append(("rand", (dialect, lay, False), layout(T, D, dialect, lay, b"\n"), (T, dedup(D))))
+        # ... and as the targets of a second rule without dependencies (what -MP writes): accepted, still kept apart
+        if len(names) >= 2:
+            cases.append(("mp-multi", ("clang", "mp", False), b"out/target_object.o: " + b" ".join(names) + b"\n" + b"".join(n_ + b":\n" for n_ in names),
+                          ([b"out/target_object.o"], names)))
+            # a sibling of a listed dependency as a target with its own dependencies is NOT that dependency: accepted
+            sib = stem + b"NEW"
+            cases.append(("sibling-target", ("clang", "multi", False), b"out/target_object.o: " + b" ".join(names) + b"\n" + sib + b": zz.h\n",
+                          ([b"out/target_object.o", sib], names + [b"zz.h"])))
     # rejected forms
     nrej = 0
     for _ in range(300 if ctx.tier == "quick" else 3000):
